@@ -10,10 +10,12 @@ syntactic shape raises SiteError, which the build records as a broken obligation
     admissibility test `not equivalent(method.reduce([fill, fill]), fill) and super is None ->
     ValueError`, and `axis = (axis,)`.  Translated by py2v's statement translator; the array-level
     expressions are externs whose meaning on Python ints is in Lib/PyReduce.v.
- 3. `s_reduce_fix_plain` — the body of `if reduce_super_ufunc is None:` read per output cell.  The
-    boolean-mask assignment `data[m] = f(data[m], ...)` is rewritten to `if m: data = f(data, ...)`
+ 3. `s_reduce_fix` — the statements of `SparseArray.reduce` between the unpacking of
+    `_reduce_calc`'s result and the call of `self._reduce_return`: `result_fill_value = self.fill_value`
+    and the three-way correction `if n_cols == 0 / elif reduce_super_ufunc is None / else`, read per
+    output cell (`data`, `counts` are the cell's reduced stored value and stored count).  A
+    boolean-mask assignment `data[m] = f(data[m], e[m])` is rewritten to `if m: data = f(data, e)`
     (the element-wise meaning of a masked update; this rule is part of the trusted translator).
-    The `else` branch is the fragment `g_reduce_super` of tools/frags/reduce.py.
  4. `s_calc_axis_elt` — the element expression `a if a >= 0 else a + self.ndim` of the generator in
     `COO._reduce_calc`.
  5. pins: source lines that Model/Reduce.v transcribes by hand must be present verbatim."""
@@ -77,11 +79,12 @@ PINS = [
 # tests of `if` statements that the model transcribes
 PIN_TESTS = [
     (SA, "SparseArray.reduce", "reduce_super_ufunc is None"),
+    (SA, "SparseArray.reduce", "n_cols == 0"),
     (SA, "SparseArray.reduce", "keepdims"),
     (SA, "SparseArray.reduce", "out.ndim == 0"),
     (SA, "SparseArray.reduce", "len(out) == 1"),
     (COO, "COO._reduce_calc", "axis == (None,)"),
-    (GCXS, "GCXS._reduce_calc", "axis[0] is None or np.array_equal(axis, np.arange(self.ndim, dtype=np.intp))"),
+    (GCXS, "GCXS._reduce_calc", "axis[0] is None or np.array_equal(np.sort(axis), np.arange(self.ndim, dtype=np.intp))"),
     (COO, "_calc_counts_invidx", "len(groups) == 0"),
     (COO, "_calc_counts_invidx", "groups[i] != last_group"),
 ]
@@ -127,7 +130,7 @@ def _translate(name, stmts, params, result, extern, frag_names, what):
 
 
 class _MaskedAssign(ast.NodeTransformer):
-    """data[m] = f(..data[m]..)  ->  if m: data = f(..data..)   (m, data plain names)"""
+    """data[m] = f(..data[m].., ..e[m]..)  ->  if m: data = f(..data.., ..e..)   (m, data plain names)"""
 
     def __init__(self):
         self.count = 0
@@ -140,9 +143,8 @@ class _MaskedAssign(ast.NodeTransformer):
 
                 class Sub(ast.NodeTransformer):
                     def visit_Subscript(self, n):
-                        if isinstance(n.value, ast.Name) and n.value.id == arr and isinstance(n.slice, ast.Name) \
-                                and n.slice.id == mask:
-                            return ast.Name(id=arr, ctx=ast.Load())
+                        if isinstance(n.slice, ast.Name) and n.slice.id == mask:
+                            return self.visit(n.value)       # e[mask] read per cell is e
                         return self.generic_visit(n)
                 val = Sub().visit(node.value)
                 self.count += 1
@@ -204,24 +206,36 @@ def generate(repo):
     out.append(text)
     rep["s_reduce_head"] = {"status": "ok", "hash": h}
 
-    # 3. the plain (non-super) correction, per output cell
-    blk = None
-    for n in ast.walk(red):
-        if isinstance(n, ast.If) and ast.unparse(n.test) == "reduce_super_ufunc is None":
-            blk = [ast.parse(ast.unparse(s)).body[0] for s in n.body]
-            break
-    if blk is None:
-        raise SiteError("`if reduce_super_ufunc is None` not found in SparseArray.reduce")
+    # 3. the fill correction, per output cell
+    i0 = i1 = None
+    for i, st in enumerate(body):
+        if isinstance(st, ast.Assign) and ast.unparse(st) == "data, counts, axis, n_cols, arr_attrs = out":
+            i0 = i + 1
+        if isinstance(st, ast.Assign) and ast.unparse(st.value) == "self._reduce_return(data, arr_attrs, result_fill_value)":
+            i1 = i
+    if i0 is None or i1 is None or i1 <= i0:
+        raise SiteError("the correction block of SparseArray.reduce was not found between the unpacking of "
+                        "_reduce_calc's result and the call of _reduce_return")
+    blk = [ast.parse(ast.unparse(st)).body[0] for st in body[i0:i1]]
     ma = _MaskedAssign()
-    blk = [ma.visit(s) for s in blk]
-    if ma.count != 1:
-        raise SiteError("expected exactly one masked assignment in the plain correction branch")
+    blk = [ma.visit(st) for st in blk]
+    blk = [ast.fix_missing_locations(st) for st in blk]
+    if ma.count != 2:
+        raise SiteError(f"expected two masked assignments in the correction block, found {ma.count}")
     text, h = _translate(
-        "s_reduce_fix_plain", blk, ["method", "fill", "data", "counts", "n_cols"], ["data"],
-        {"method(data, self.fill_value, **kwargs)": "ext_apply method data fill"}, {},
-        "SparseArray.reduce, body of `if reduce_super_ufunc is None` per output cell (masked assignment rewritten)")
+        "s_reduce_fix", blk, ["method", "reduce_super_ufunc", "fill", "data", "counts", "n_cols"],
+        ["data", "result_fill_value"],
+        {"self.fill_value": "Ok fill",
+         "method.identity": "ext_identity method",
+         "method.reduce(np.empty((0,), dtype=self.dtype), **kwargs)": "ext_identity method",
+         "method(data, self.fill_value, **kwargs)": "ext_apply method data fill",
+         "method(data, reduce_super_ufunc(self.fill_value, n_cols - counts)).astype(data.dtype)":
+             "(m_ <- py_sub n_cols counts ;; s_ <- ext_apply reduce_super_ufunc fill m_ ;; ext_apply method data s_)",
+         "reduce_super_ufunc(self.fill_value, n_cols)": "ext_apply reduce_super_ufunc fill n_cols"}, {},
+        "SparseArray.reduce, from `result_fill_value = self.fill_value` to the call of _reduce_return, per output cell "
+        "(masked assignments rewritten)")
     out.append(text)
-    rep["s_reduce_fix_plain"] = {"status": "ok", "hash": h}
+    rep["s_reduce_fix"] = {"status": "ok", "hash": h}
 
     # 4. COO._reduce_calc: element expression of the axis generator
     calc = _fn(coo, "COO._reduce_calc")
